@@ -81,4 +81,25 @@ int vx_native_select(const char* text, const char* name, double scale, int* keys
    }
    return n;
 }
+// native-only: fill_block_entry("X", 7, 1.5, "result") (or the text overload) on a collection read from text;
+// the resulting collection is written to out
+int vx_native_fill_entry(const char* text, int with_value, char* out, int max)
+{
+   try {
+      std::istringstream is(text);
+      gm2calc::GM2_slha_io io;
+      io.read_from_stream(is);
+      if (with_value) io.fill_block_entry("X", 7, 1.5, "result");
+      else io.fill_block_entry("X", 7, "result");
+      std::ostringstream os;
+      io.write_to_stream(os);
+      const std::string s = os.str();
+      int n = (int)s.size() < max - 1 ? (int)s.size() : max - 1;
+      for (int i = 0; i < n; i++) out[i] = s[i];
+      out[n] = 0;
+   } catch (...) {
+      return 1;
+   }
+   return 0;
+}
 }
